@@ -433,7 +433,8 @@ Qed.
 (** |model - Lehmann sum| <= sum over the dropped candidates of |R/(z-P)|  +  sum over the term-list events of their error;
     the error of an event is 0 for a new term; for a merge it is R_t (P_x - P_t)/((z-P_x)(z-P_t)) with |P_x - P_t| < Tolerance
     ([merged_err_closed_form]); for a sum dropped as negligible it is -(R_x + R_t)/(z-P_x) plus that merge term, with
-    |R_x + R_t| < Tolerance/size; a refused insertion never occurs (TermListProofs.add_term_never_refused). *)
+    |R_x + R_t| < Tolerance/size; for a longer chain one such merge term per step ([chain_err_closed_form]); with the library's
+    comparator chains have at most one step and no term is lost otherwise ([gf_part_events_short]). *)
 Theorem gf_part_tolerance fixed lenient T inp (W : part_wf K inp) o z :
   gf_part_compute K NO fixed lenient T inp = WDone o ->
   (norm (ksub (gf_part_value K NO o z) (gf_part_spec K NO inp z)) <=
@@ -467,21 +468,42 @@ Variable kinv : K -> K.
 Hypothesis Kf : field_theory k0 k1 kadd kmul ksub kopp kdiv kinv (@eq K).
 Add Field KfieldME : Kf.
 
-Theorem merged_err_closed_form z px rx pt rt :
+(** one step of a merge chain: the running sum (pt, rt) is reduced into the stored term (px, rx) *)
+Theorem chain_step_closed_form z px rx pt rt :
   ksub z px <> k0 -> ksub z pt <> k0 ->
-  ev_err K K K k0 kadd ksub (fz K NO z) (EvMerged [(px, rx)] (px, gf_term_add K NO rx rt) true) (pt, rt) =
+  ksub (ksub (fz K NO z (px, gf_term_add K NO rx rt)) (fz K NO z (px, rx))) (fz K NO z (pt, rt)) =
   kdiv (kmul rt (ksub px pt)) (kmul (ksub z px) (ksub z pt)).
 Proof.
-  intros H1 H2. unfold ev_err, eval, fz. cbn [fold_left fst snd].
+  intros H1 H2. unfold fz. cbn [fst snd].
+  rewrite !gf_term_eval_char, gf_term_add_char. field. split; assumption.
+Qed.
+
+(** hence, for a chain of any length: the error of the first step in closed form plus the error of the rest of the chain,
+    which starts from the reduced term *)
+Theorem chain_err_closed_form z px rx pt rt rest fin :
+  ksub z px <> k0 -> ksub z pt <> k0 ->
+  ev_err K K K k0 kadd ksub (fz K NO z) (EvChain (((px, rx), (px, gf_term_add K NO rx rt)) :: rest) fin) (pt, rt) =
+  kadd (kdiv (kmul rt (ksub px pt)) (kmul (ksub z px) (ksub z pt)))
+       (ev_err K K K k0 kadd ksub (fz K NO z) (EvChain rest fin) (px, gf_term_add K NO rx rt)).
+Proof.
+  intros H1 H2. unfold ev_err. cbn [chain_err]. rewrite (chain_step_closed_form z px rx pt rt H1 H2). reflexivity.
+Qed.
+
+Theorem merged_err_closed_form z px rx pt rt :
+  ksub z px <> k0 -> ksub z pt <> k0 ->
+  ev_err K K K k0 kadd ksub (fz K NO z) (EvChain [((px, rx), (px, gf_term_add K NO rx rt))] FinInserted) (pt, rt) =
+  kdiv (kmul rt (ksub px pt)) (kmul (ksub z px) (ksub z pt)).
+Proof.
+  intros H1 H2. unfold ev_err. cbn [chain_err]. unfold fz. cbn [fst snd].
   rewrite !gf_term_eval_char, gf_term_add_char. field. split; assumption.
 Qed.
 
 Theorem negligible_err_closed_form z px rx pt rt :
   ksub z px <> k0 -> ksub z pt <> k0 ->
-  ev_err K K K k0 kadd ksub (fz K NO z) (EvNegligible [(px, rx)] (px, gf_term_add K NO rx rt)) (pt, rt) =
+  ev_err K K K k0 kadd ksub (fz K NO z) (EvChain [((px, rx), (px, gf_term_add K NO rx rt))] FinNegligible) (pt, rt) =
   ksub (kdiv (kmul rt (ksub px pt)) (kmul (ksub z px) (ksub z pt))) (kdiv (kadd rx rt) (ksub z px)).
 Proof.
-  intros H1 H2. unfold ev_err, eval, fz. cbn [fold_left fst snd].
-  rewrite !gf_term_eval_char. field. split; assumption.
+  intros H1 H2. unfold ev_err. cbn [chain_err]. unfold fz. cbn [fst snd].
+  rewrite !gf_term_eval_char, gf_term_add_char. field. split; assumption.
 Qed.
 End MergeErr.
